@@ -1371,6 +1371,10 @@ def run(ctx: common.Ctx):
             flush(ctx, S)
     flush(ctx, S)
     callvariant_stream(ctx)
+    # callVariant clause, metamorphic: two fusion records that leave the donor at the same position
+    # (two acceptors, or ONE acceptor entered at two positions) must both be called
+    from . import cv_checks
+    cv_checks.fusion_pairs(ctx, ctx.n(36, 500))
     g = ctx.coverage['streams'].get('gen', {})
     missing = [c for c in ('++', '+-', '-+', '--') if not g.get('record_strands_' + c)]
     if missing:
